@@ -231,7 +231,24 @@ class Ctx:
                     out.setdefault(g.id, []).append((g, pt, cid))
         return out
 
+    def expand_allowed(self, allowed):
+        """a helper named in a who-may-call table that no longer exists (inlined by hand into its callers) passes its entry on to the
+        functions that called it in the reference tree"""
+        out = set(allowed)
+        rc = getattr(self.prog, "ref_callers", None) or {}
+        work = [h for h in allowed if h not in self.prog.fns]
+        seen = set()
+        while work:
+            h = work.pop()
+            if h in seen: continue
+            seen.add(h)
+            for c in rc.get(h, ()):
+                out.add(c)
+                if c not in self.prog.fns: work.append(c)
+        return out
+
     def who_may_call(self, callee_rx, allowed, inst, why, rule="R-WHO", min_callers=1):
+        allowed = self.expand_allowed(allowed)
         cs = self.callers_of(callee_rx)
         if len(cs) < min_callers:
             self.missing(rule, callee_rx, inst, "expected at least %d caller(s) of %s, found %d" % (min_callers, callee_rx, len(cs)))
